@@ -168,7 +168,7 @@ def draw_params(rng):
     subs = [list(c) for k in range(1, 5) for c in itertools.combinations(RATES, k)]
     dl = float(rng.choice([0.005, 0.02, 0.05, 0.2]))
     return dict(time_decay_factor=float(rng.choice([0.5, 0.9, 0.99])), warning_level=float(min(0.45, dl * float(rng.choice([1, 2, 4])))),
-                detect_level=dl, burn_in=int(rng.choice([1, 3, 10, 30, 50])), num_mc=int(rng.choice([50, 100, 200, 400])),
+                detect_level=dl, burn_in=int(rng.choice([0, 1, 3, 10, 30, 50])), num_mc=int(rng.choice([50, 100, 200, 400])),
                 subsample=int(rng.choice([1, 1, 2, 3, 5])), rates_tracked=subs[int(rng.integers(0, len(subs)))],
                 parallelize=False, round_val=int(rng.choice([1, 2, 3, 4])))
 
